@@ -107,6 +107,20 @@ pub fn run(seed: u64, full: bool) -> (Vec<Value>, u64) {
                     let stmt_seed = if seeded { Some(seed_sc) } else { None };
 
                     // (a) drops of the owning types
+                    // (an opening built from a vector that was longer before: what sits in the spare capacity is the caller's
+                    //  secret too, and the vector belongs to the opening now)
+                    let spare: Vec<Scalar> = (0..3).map(|k| hash_scalar(&[b"mem-spare", &seed.to_le_bytes(), &scen.to_le_bytes(), &(k as u64).to_le_bytes()])).collect();
+                    let mut longer = blinds[0].clone();
+                    longer.extend(spare.iter().cloned());
+                    longer.truncate(t);
+                    let o4 = CommitmentOpening::new(vals[0], longer);
+                    for (k, sp) in spare.iter().enumerate() {
+                        if sec.names.len() < 60 {
+                            sec.names.push(format!("truncated factor {}", k));
+                            sec.pats.push(sp.as_bytes().to_vec());
+                        }
+                    }
+                    drop(spare);
                     let ops: Vec<CommitmentOpening> = (0..m).map(|j| CommitmentOpening::new(vals[j], blinds[j].clone())).collect();
                     let o2 = CommitmentOpening::new(vals[0], blinds[0].clone());
                     let o3 = o2.clone();
@@ -116,6 +130,7 @@ pub fn run(seed: u64, full: bool) -> (Vec<Value>, u64) {
                     armed(&sec, || {
                         drop(o2);
                         drop(o3);
+                        drop(o4);
                         drop(w2);
                         let b = mk.blindings().unwrap(); // a plain copy handed to the caller: the caller's to wipe
                         std::mem::forget(b);
@@ -224,7 +239,7 @@ pub fn run(seed: u64, full: bool) -> (Vec<Value>, u64) {
     }
     // ---- (h) many commitments at a higher extension degree (scratch space that no longer fits small fixed buffers): a proof, and the
     // prover's error path (the LAST opening does not open its commitment; the LAST promise exceeds its value)
-    for &(m, t) in &[(16usize, 3usize), (64, 1)] {
+    for &(m, t) in &[(16usize, 3usize), (64, 1), (32, 2)] {
         let pc = create_pedersen_gens_with_extension_degree(ExtensionDegree::try_from(t).unwrap());
         let params = RangeParameters::<P>::init(2, m, pc).unwrap();
         let blinds: Vec<Vec<Scalar>> = (0..m).map(|j| (0..t).map(|k| hash_scalar(&[b"mem-wide-blind", &seed.to_le_bytes(), &(m as u64).to_le_bytes(), &(j as u64).to_le_bytes(), &(k as u64).to_le_bytes()])).collect()).collect();
